@@ -6,7 +6,10 @@ import common as C
 import bp
 
 PKG = "collector/processor/concurrentbatchprocessor"
-STATEMENT = {"C05", "C06", "C09", "C11"}
+# Every clause of BPHookObs rests on WHERE a hook sits in the code (what "FlushDone" or "SemAcquired" means), so a
+# harmless restructuring could move its meaning: none of them is a verdict.  They are reported as drift of the repository's
+# own test executions from the hook-level accounting, next to the number of tests and events that were explained.
+STATEMENT = set()
 
 def build():
     d = C.scratch("bprt.")
